@@ -131,7 +131,7 @@ Vals(t) ==
                     V == Ends(Vals(t[5]))
                     lits == << <<"map", <<>>>>, <<"map", << <<K[1], V[Len(V)]>> >>>> >>
                             \o (IF Len(K) = 2 THEN << <<"map", << <<K[1], V[1]>>, <<K[2], V[Len(V)]>> >>>> >> ELSE <<>>)
-                IN IF t[1] = "big_map" THEN lits \o << <<"bmptr", 7>> >> ELSE lits
+                IN IF t[1] = "big_map" THEN lits \o << <<"bmptr", 7>>, <<"bmptr", 0>> >> ELSE lits      \* 0 is a big_map id like any other
 Ascending(s) == \A i \in 1..(Len(s) - 1) : s[i] # s[i + 1]     \* (order itself is by construction; no duplicates is checked)
 RECURSIVE HasType(_, _)
 HasType(v, t) ==
